@@ -54,6 +54,8 @@ EndRules(o) ==
     \cup (IF ~(ToSetS(o.sent) \subseteq ToSetS(o.wire)) THEN {"C34.reported-sent-not-on-wire"} ELSE {})
     \cup (IF \E x \in given : x \notin ToSetS(o.wire) /\ x \notin ToSetS(o.dropped) THEN {"C34.packet-neither-written-nor-reported-dropped"} ELSE {})
     \cup (IF o.q # 0 THEN {"C34.queue-not-drained"} ELSE {})
+    \* C07: every PINGREQ got its PINGRESP
+    \cup (IF \E x \in given : x > 200 /\ x < DiscId /\ x \notin ToSetS(o.wire) THEN {"C07.pingreq-unanswered"} ELSE {})
 
 (* ---------------------------------------------------------------- steps *)
 ModelVars == vars
@@ -71,7 +73,7 @@ Follow(e) == Next /\ hist' = Append(hist, <<e.w, e.g, e.og>>)
 NPub == Cardinality({x \in given : x < 200})
 NDir == Cardinality({x \in given : x > 200 /\ x < DiscId})
 Ghost(e) ==
-    given' = IF e.w = "env" THEN given \cup {IF e.g = "ping" THEN 200 + NDir + 1 ELSE IF e.g = "bad" THEN DiscId ELSE 100 + NPub + 1} ELSE given
+    given' = IF e.w = "env" /\ e.g # "age" THEN given \cup {IF e.g = "ping" THEN 200 + NDir + 1 ELSE IF e.g = "bad" THEN DiscId ELSE 100 + NPub + 1} ELSE given
 
 Complain(c, e) ==
     /\ reported' = reported \cup c
